@@ -230,7 +230,7 @@ BootAlloc ==
 \* replay from a reset state must return the same frames (checked in one step)
 BootReplay ==
   /\ pc = "bootdone"
-  /\ LET rp == BootAllocN(cnt, 0, 0, <<>>) IN
+  /\ LET rp == IF Bug = "ReplayKeepsCursor" THEN BootAllocN(cnt, last, 0, <<>>) ELSE BootAllocN(cnt, 0, 0, <<>>) IN
      /\ mismatch' = IF rp[1] /\ [i \in 1..Len(rp[2]) |-> Wn(rp[2][i])] = s.bh THEN <<>> ELSE <<cnt, "C02", "replay differs">>
      /\ pc' = "replayed"
   /\ UNCHANGED <<regs, ks, ke, last, cnt, pools, total, reserved, held, nops, script, s>>
